@@ -59,13 +59,29 @@ def K_(path, idx=None):
     return Rat.atom(K(tuple(path), idx))
 
 
-def run_method(index, rel, clsname, method, self_attrs, args, kwargs=None, decisions=None, extra_hook=None, forks=True):
+def module_literals(index, rel):
+    """module-level `NAME = <literal list/tuple/dict/number/string>` assignments, as abstract values"""
+    out = {}
+    it = Interp()
+    for st in index.module(rel).body:
+        if isinstance(st, ast.Assign) and len(st.targets) == 1 and isinstance(st.targets[0], ast.Name) and not any(
+                isinstance(n, (ast.Name, ast.Call, ast.Attribute)) for n in ast.walk(st.value)):
+            try:
+                out[st.targets[0].id] = it.eval(st.value, {})
+            except Unsupported:
+                pass
+    return out
+
+
+def run_method(index, rel, clsname, method, self_attrs, args, kwargs=None, decisions=None, extra_hook=None, forks=True, module_globals=False):
     cls = index.cls(rel, clsname)
     fn = index.func(rel, f"{clsname}.{method}")
     results = []
+    glob = module_literals(index, rel) if module_globals else {}
 
     def runit(it):
         it.classes = {clsname: cls}
+        it.globals.update(glob)
 
         def hook(interp, d, a, kw, node):
             if extra_hook is not None:
@@ -609,12 +625,17 @@ def year1(index, rep):
     # the country exceptions the code states: `== "XXX"` tests whose arm assigns a number, or a dict literal of code -> number
     stated = {}
     for n in ast.walk(fn):
-        if isinstance(n, ast.If) and isinstance(n.test, ast.Compare) and len(n.test.ops) == 1 and isinstance(n.test.ops[0], ast.Eq):
-            code = str_const(n.test.comparators[0]) or str_const(n.test.left)
+        if isinstance(n, ast.If) and isinstance(n.test, ast.Compare) and len(n.test.ops) == 1 and isinstance(n.test.ops[0], (ast.Eq, ast.In)):
+            if isinstance(n.test.ops[0], ast.Eq):
+                codes = [str_const(n.test.comparators[0]) or str_const(n.test.left)]
+            else:
+                seq = n.test.comparators[0]
+                codes = [str_const(e) for e in seq.elts] if isinstance(seq, (ast.Tuple, ast.List, ast.Set)) else []
             vals = [s_.value.value for s_ in n.body if isinstance(s_, ast.Assign) and isinstance(s_.value, ast.Constant)
-                    and isinstance(s_.value.value, (int, float))]
-            if code and len(code) == 3 and code.isupper() and len(vals) == 1:
-                stated[code] = Fraction(vals[0])
+                    and isinstance(s_.value.value, (int, float)) and not isinstance(s_.value.value, bool)]
+            for code in codes:
+                if code and len(code) == 3 and code.isupper() and len(vals) == 1:
+                    stated[code] = Fraction(vals[0])
         if isinstance(n, ast.Dict) and n.keys and all(str_const(k) and len(str_const(k)) == 3 for k in n.keys) and all(
                 isinstance(v, ast.Constant) and isinstance(v.value, (int, float)) for v in n.values):
             for k, v in zip(n.keys, n.values):
@@ -711,13 +732,23 @@ def stock(index, rep, start):
         want = tons * Rat.const(Fraction(4 * 10**6, 10**9)) * (Rat.const(1) - Rat.atom(("Wd",)) / Rat.const(100))
         rep.check(isinstance(food, Obj) and it.to_rat(food.attrs.get("kcals")) == want, rule, "stored food kcals = tonnage x 4e6/1e9 x (1 - distribution waste)",
                   "initial stored food is not tonnage x 4e6/1e9 x (1 - crop distribution waste)", loc=loc(SF, fn))
-    init = index.func(SF, "StoredFood.__init__")
     names = ["JAN", "FEB", "MAR", "APR", "MAY", "JUN", "JUL", "AUG", "SEP", "OCT", "NOV", "DEC"]
-    got = {}
-    for s in init.body:
-        if isinstance(s, ast.Assign) and isinstance(s.targets[0], ast.Subscript) and norm_src(s.targets[0].value) == "self.end_of_month_stocks":
-            got[norm_src(s.targets[0].slice)] = norm_src(s.value)
-    ok = all(got.get(str(i)) == f"constants_for_params['END_OF_MONTH_STOCKS']['{nm}']" for i, nm in enumerate(names))
+    init = index.func(SF, "StoredFood.__init__")
+
+    def hook0(interp, d, a, kw, node):
+        if d and d.startswith("super"):
+            return None
+        if isinstance(node.func, ast.Attribute) and isinstance(node.func.value, ast.Call) and dotted(node.func.value.func) == "super":
+            return None
+        return NotImplemented
+
+    oc0 = Obj(None, {"OG_FRACTION_FAT": Rat.atom(("ff",)), "OG_FRACTION_PROTEIN": Rat.atom(("fp",))}, "outdoor_crops")
+    res0, _ = run_method(index, SF, "StoredFood", "__init__", {}, [Path(("c",)), oc0], extra_hook=hook0, module_globals=True)
+    ok = False
+    for dec, r, obj, it in res0[:1]:
+        lst = obj.attrs.get("end_of_month_stocks")
+        ok = isinstance(lst, PList) and len(lst.items) == 12 and all(
+            isinstance(v, (Rat, Path)) and it.to_rat(v) == K_(("c", "END_OF_MONTH_STOCKS", nm)) for v, nm in zip(lst.items, names))
     rep.check(ok, rule, "stock list index k = calendar month k+1", "the end-of-month stock list is not filled January..December in order", loc=loc(SF, init))
     p = index.func(PARAMS, "Parameters.init_stored_food")
     rep.check("stored_food.calculate_stored_food_to_use(self.SIMULATION_STARTING_MONTH_NUM)" in norm_src(p), rule, "called with the simulation start month",
